@@ -63,7 +63,7 @@ Ltac step_cases H :=
 
 (* projections of the explicit records only; never unfolds comparisons on numbers *)
 Ltac psimpl :=
-  cbn [c_restarts c_state c_cached c_obj c_beresp c_resp c_trace c_obs c_objttl c_pass c_hit set_branch set_obj
+  cbn [c_restarts c_state c_cached c_obj c_beresp c_resp c_trace c_obs c_objttl c_pass c_hit c_objstatus c_errobj c_respstatus set_errobj set_branch set_obj
        set_beresp set_resp add_obs set_objttl set_pass set_hit set_cache p_cache p_rc p_pb fst snd] in *.
 
 (* ---- restart bound ---- *)
